@@ -253,6 +253,8 @@ class Parser:
         self.allow_float = False
         self.struct_types = set()                   # struct type names whose locals are modelled (configured per target)
         self.ptr_elems = set()                      # element type names `E` such that `E*` is a pointer into the array's data
+        self.skip_prefixes = []                     # token prefixes of statements that are ignored (configured per target, recorded)
+        self.float_types = set()                    # type names that denote the floating type of a float-polymorphic target (kind 'F')
 
     # -- helpers
     def err(self, msg):
@@ -298,7 +300,9 @@ class Parser:
         if name == 'long' and self.peek(j - self.i).text == 'long':
             j += 1
         kind = None
-        if name in INT_TYPES or (len(words) > 1 and words[-1] in ('index_type',)):
+        if name in self.float_types:
+            kind = 'F'
+        elif name in INT_TYPES or (len(words) > 1 and words[-1] in ('index_type',)):
             kind = 'int'
         elif name in self.tparams:
             kind = self.tparams[name]
@@ -306,6 +310,8 @@ class Parser:
             kind = 'u32'
         elif name == 'bool':
             kind = 'bool'
+        elif name in self.float_types:
+            kind = 'F'
         elif name in UNSUPPORTED_TYPES:
             self.i = save
             return 'unsupported:' + name
@@ -506,8 +512,28 @@ class Parser:
     def stmt(self):
         t = self.peek()
         ln = t.line
+        for pre in self.skip_prefixes:              # configured statements without effect on the translated value
+            if all(self.peek(k).text == w for k, w in enumerate(pre)):
+                depth, j = 0, self.i
+                while j < len(self.toks) and not (depth == 0 and self.toks[j].text == ';'):
+                    depth += self.toks[j].text in ('(', '[', '{')
+                    depth -= self.toks[j].text in (')', ']', '}')
+                    j += 1
+                if j >= len(self.toks):
+                    raise self.err('unterminated statement')
+                text = ' '.join(x.text for x in self.toks[self.i:j])
+                self.i = j + 1
+                return ('ignored', text, ln)
         if self.at('{'):
             return ('block', self.block(), ln)
+        if t.kind == 'id' and self.at('goto'):
+            self.i += 1
+            lab = self.ident()
+            self.eat(';')
+            return ('goto', lab, ln)
+        if t.kind == 'id' and self.peek(1).kind == 'op' and self.peek(1).text == ':' and t.text not in ('default', 'case'):
+            self.i += 2
+            return ('label', t.text, ln)
         if self.at(';'):
             self.i += 1
             return ('block', [], ln)
@@ -587,7 +613,11 @@ class Parser:
             self.eat(')')
             body = self.stmt()
             return ('while', c, body, ln)
-        for kw in ('do', 'continue', 'goto', 'try', 'throw'):
+        if self.at('continue'):
+            self.i += 1
+            self.eat(';')
+            return ('continue', ln)
+        for kw in ('do', 'try', 'throw'):
             if self.at(kw):
                 raise self.err(f'`{kw}` statement (outside the subset)')
         # `S name;` for a configured struct type S
@@ -631,6 +661,10 @@ class Parser:
         self.eat(';')
         if e[0] in ('preinc', 'postinc'):
             return ('assign', '+=' if e[1] == '++' else '-=', e[2], ('int', 1), ln)
+        if e[0] == 'mcall' and e[2] == 'push_back' and len(e[3]) == 1:
+            return ('push', e, ln)
+        if e[0] == 'call':
+            return ('callstmt', e, ln)
         raise self.err(f'expression statement without effect in the subset: {e[0]}')
 
 
@@ -684,6 +718,7 @@ class Translator:
         self.alias = {}                     # local -> accessor path it was initialised with (and never assigned since)
         self.stack = []                     # helpers being translated (recursion is outside the subset)
         self.enums = {}
+        self.ignored = []                   # configured statements without effect on the translated value (recorded in the doc)
 
     def err(self, ln, msg):
         return TranslationError(f'{self.where}: line {ln}: {msg}')
@@ -707,6 +742,8 @@ class Translator:
                 return f'(if {t} = true then 1 else 0)'
             if k == 'T':
                 return t
+        if want == 'F':
+            return self.toF(tk, ln)
         if want == 'u32' and k == 'int' and re.fullmatch(r'\d+', t) and int(t) < 2 ** 32:
             return t
         if want == 'prop' and k == 'u32':
@@ -760,16 +797,102 @@ class Translator:
             return '*' + self._path(e[1 + 1])
         return '?'
 
+    # ---- floating values (kind 'F'): the generated definition is polymorphic in the scalar type `α`; every operation is
+    # emitted through a template of `spec['fops']` (default: the notation of the operator classes the models are written
+    # over), so the rounding sequence of the C++ expression is the operation sequence of the Lean term
+    FOPS = dict(natlit='(({n} : Nat) : α)', ofint='(({e} : Int) : α)', add='({a} + {b})', sub='({a} - {b})', mul='({a} * {b})',
+                div='({a} / {b})', neg='(-{a})', lt='({a} < {b})', gt='({a} > {b})')
+
+    def fop(self, name, ln, **kw):
+        ops = dict(self.FOPS)
+        ops.update(self.spec.get('fops') or {})
+        if name not in ops:
+            raise self.err(ln, f'floating operation `{name}` (outside the subset for this target)')
+        return ops[name].format(**kw)
+
+    def flit(self, text, ln):
+        from fractions import Fraction
+        t = text.rstrip('fFlL')
+        try:
+            fr = Fraction(t)
+        except ValueError:
+            raise self.err(ln, f'floating literal {text}')
+        if fr < 0:
+            raise self.err(ln, f'floating literal {text}')
+        if fr.denominator == 1:
+            return self.fop('natlit', ln, n=fr.numerator)
+        # a decimal constant is the reduced fraction num / den of two small naturals: one correctly rounded division, the
+        # same double as the literal as long as num and den are exactly representable and the quotient is the nearest double
+        # to the decimal (true for the short decimals of the sources; checked by the differential run)
+        if fr.numerator >= 2 ** 24 or fr.denominator >= 2 ** 24:
+            raise self.err(ln, f'floating literal {text}: not a short decimal')
+        return self.fop('div', ln, a=self.fop('natlit', ln, n=fr.numerator), b=self.fop('natlit', ln, n=fr.denominator))
+
+    def toF(self, tk, ln):
+        t, k = tk
+        if k == 'F':
+            return t
+        if k == 'int':
+            if re.fullmatch(r'\d+', t):
+                return self.fop('natlit', ln, n=t)
+            return self.fop('ofint', ln, e=t)
+        raise self.err(ln, f'conversion {k} -> floating of `{t}` (outside the subset)')
+
+    def etype(self):
+        return (self.spec.get('trace') or {}).get('etype', 'Int × Int')
+
+    def read_key(self, e):
+        """trace mode: the key of `e` when it is a configured element read (`recorded` or `silent`), else None"""
+        tr = self.spec.get('trace') or {}
+        if isinstance(e, tuple) and e and e[0] == 'mcall':
+            key = self._path(e[1]) + '.' + e[2] + '()'
+            if key in (tr.get('reads') or []) or key in (tr.get('silent_reads') or []):
+                return key
+        return None
+
+    def event(self, key, table, args, env, ln):
+        ix = [self.coerce(self.expr(a, env, ln), 'int', ln) for a in args]
+        if isinstance(table, dict):
+            ix = [str(table[key])] + ix
+        return '[(' + ', '.join(ix) + ')]'
+
+    def reads_in(self, e, out=None):
+        """the configured element reads inside expression `e`, in source order"""
+        out = [] if out is None else out
+        if isinstance(e, tuple):
+            if self.read_key(e) is not None:
+                out.append(e)
+            for x in e[1:]:
+                self.reads_in(x, out)
+        elif isinstance(e, list):
+            for x in e:
+                self.reads_in(x, out)
+        return out
+
+    def has_events(self, x):
+        """trace mode: does the statement / expression `x` append to the trace?"""
+        tr = self.spec.get('trace') or {}
+        if isinstance(x, tuple):
+            if x and x[0] == 'mcall':
+                key = self._path(x[1]) + '.' + x[2] + '()'
+                if key in (tr.get('reads') or []) or key in (tr.get('writes') or []) or key in (tr.get('pushes') or []):
+                    return True
+            if x and x[0] == 'call' and x[1].split('::')[-1] in self.known and self.known[x[1].split('::')[-1]].get('trace'):
+                return True
+            return any(self.has_events(y) for y in x[1:])
+        if isinstance(x, list):
+            return any(self.has_events(y) for y in x)
+        return False
+
     def trace_reads(self, e, env, ln, out):
-        """trace mode: the array reads of expression `e` in source order, as Lean terms of type `List (Int × Int)`"""
+        """trace mode: the array reads of expression `e` in source order, as Lean terms of type `List (<event type>)`"""
         if not isinstance(e, tuple):
             return
         tr = self.spec.get('trace') or {}
         if e[0] == 'mcall' and self._path(e[1]) + '.' + e[2] + '()' in (tr.get('reads') or []):
             for a in e[3]:
                 self.trace_reads(a, env, ln, out)
-            ix = [self.coerce(self.expr(a, env, ln), 'int', ln) for a in e[3]]
-            out.append('[(' + ', '.join(ix) + ')]')
+            out.append(self.event(self._path(e[1]) + '.' + e[2] + '()', tr['reads'], e[3], env, ln))
             return
         if e[0] == 'call' and e[1].split('::')[-1] in self.known and self.known[e[1].split('::')[-1]].get('trace'):
             f = self.known[e[1].split('::')[-1]]
@@ -795,7 +918,7 @@ class Translator:
         out = []
         for e in exprs:
             self.trace_reads(e, env, ln, out)
-        return ''.join(f'{pad}let acc_ : List (Int × Int) := acc_ ++ {t}\n' for t in out)
+        return ''.join(f'{pad}let acc_ : List ({self.etype()}) := acc_ ++ {t}\n' for t in out)
 
     def expr(self, e, env, ln):
         k = e[0]
@@ -803,10 +926,16 @@ class Translator:
         if tr:
             if k == 'float':
                 return ('()', 'elem')
-            if k == 'mcall' and self._path(e[1]) + '.' + e[2] + '()' in (tr.get('reads') or []):
+            if self.read_key(e) is not None:
                 return ('()', 'elem')
             if k == 'call' and e[1].split('::')[-1] in self.known and self.known[e[1].split('::')[-1]].get('trace'):
                 return ('()', 'elem')
+        if k == 'lean':
+            return (e[1], 'prop')
+        if k == 'float':
+            if not self.spec.get('float'):
+                raise self.err(ln, f'floating-point literal {e[1]} (outside the subset)')
+            return (self.flit(e[1], ln), 'F')
         if k == 'int':
             return (str(e[1]), 'int')
         if k == 'boollit':
@@ -837,6 +966,9 @@ class Translator:
                 raise self.err(ln, f'`{v}` is not a modelled struct local here')
             a = self.coerce(self.expr(e[2], env, ln), 'int', ln)
             return (f'({lname(v)}.getD (Int.toNat ({a})) 0)', 'int')
+        if k == 'index' and e[1][0] == 'var' and env.get(e[1][1]) == 'arr':
+            a = self.coerce(self.expr(e[2], env, ln), 'int', ln)
+            return (f'({lname(e[1][1])}.getD (Int.toNat ({a})) ({self.spec.get("arr_default", "0")}))', 'int')
         if k in ('index', 'mcall', 'member'):
             hit, key = self.accessor(e)
             if hit is None:
@@ -862,10 +994,18 @@ class Translator:
             a = self.expr(e[2], env, ln)
             if want == 'bool':
                 return (self.coerce(a, 'prop', ln), 'prop')
+            if want == 'F':
+                return (self.toF(a, ln), 'F')
+            if a[1] == 'F':
+                if want != 'int':
+                    raise self.err(ln, f'conversion of a floating value to {want} (outside the subset)')
+                return (self.fop('trunc', ln, a=a[0]), 'int')
             return (self.coerce(a, want, ln), want)
         if k == 'cond':
             c = self.coerce(self.expr(e[1], env, ln), 'prop', ln)
             a, b = self.expr(e[2], env, ln), self.expr(e[3], env, ln)
+            if 'F' in (a[1], b[1]):
+                return (f'(if {c} then {self.toF(a, ln)} else {self.toF(b, ln)})', 'F')
             kind = self.join_kind(a[1], b[1], ln)
             if kind == 'prop':
                 return (f'(if {c} then decide ({a[0]}) else decide ({b[0]})) = true', 'prop')
@@ -875,6 +1015,8 @@ class Translator:
             if e[1] == '!':
                 return (f'¬ {self.atom(self.coerce(a, "prop", ln))}', 'prop')
             if e[1] in ('-', '+'):
+                if a[1] == 'F':
+                    return (self.fop('neg', ln, a=a[0]) if e[1] == '-' else a[0], 'F')
                 if a[1] == 'int':
                     return (f'(-{self.atom(a[0])})' if e[1] == '-' else a[0], 'int')
                 if a[1] in ('T', 'Tx'):
@@ -887,6 +1029,13 @@ class Translator:
                 b = self.coerce(self.expr(e[3], env, ln), 'prop', ln)
                 return (f'({a} {"∧" if op == "&&" else "∨"} {b})', 'prop')
             a, b = self.expr(e[2], env, ln), self.expr(e[3], env, ln)
+            if 'F' in (a[1], b[1]):
+                x, y = self.toF(a, ln), self.toF(b, ln)
+                name = {'+': 'add', '-': 'sub', '*': 'mul', '/': 'div', '<': 'lt', '>': 'gt', '<=': 'le', '>=': 'ge', '==': 'eq',
+                        '!=': 'ne'}.get(op)
+                if name is None:
+                    raise self.err(ln, f'`{op}` on a floating value (outside the subset)')
+                return (self.fop(name, ln, a=x, b=y), 'prop' if name in ('lt', 'gt', 'le', 'ge', 'eq', 'ne') else 'F')
             if op in ('==', '!=', '<', '<=', '>', '>='):
                 self.check_comparable(a, b, ln)
                 lop = {'==': '=', '!=': '≠', '<': '<', '<=': '≤', '>': '>', '>=': '≥'}[op]
@@ -949,6 +1098,9 @@ class Translator:
                 if kind not in ('int', 'T'):
                     raise self.err(ln, f'{name} on {kind} (outside the subset)')
                 return (f'({base} {self.atom(self.coerce(a, kind, ln))} {self.atom(self.coerce(b, kind, ln))})', kind)
+            if base in ('fabs', 'floor', 'ceil', 'sqrt') and len(args) == 1 and self.spec.get('float'):
+                a = self.expr(args[0], env, ln)
+                return (self.fop(base, ln, a=self.toF(a, ln)), 'F')
             if name in ('std::abs', 'abs', 'std::labs', 'labs') and len(args) == 1:
                 a = self.expr(args[0], env, ln)
                 if a[1] != 'int':
@@ -988,7 +1140,16 @@ class Translator:
         if self.repo is None or base in self.stack or len(self.stack) >= 4:
             raise self.err(ln, f'call of `{base}` (outside the subset)')
         fname = self.spec['file']
-        fs = [f for f in find_functions(fname, (self.repo / fname).read_text(), base) if f.template is None]
+        allf = find_functions(fname, (self.repo / fname).read_text(), base)
+        fs = [f for f in allf if f.template is None]
+        ftypes = set(self.spec.get('float') or [])
+        if not fs and ftypes:           # `template <typename FT> FT h(FT x)` called at the floating type
+            for f in allf:
+                if f.template is not None and f.template[1] > f.template[0] + 2:
+                    names = [t.text for t in f.toks[f.template[0] + 2:f.template[1]] if t.kind == 'id' and t.text not in ('typename', 'class')]
+                    if len(names) == 1:
+                        fs.append(f)
+                        ftypes = ftypes | set(names)
         if len(fs) != 1:
             raise self.err(ln, f'call of `{base}`: {len(fs)} plain definitions in {fname} (outside the subset)')
         f = fs[0]
@@ -1002,6 +1163,8 @@ class Translator:
                 return 'bool'
             if tyn in U32_TYPES:
                 return 'u32'
+            if tyn in ftypes:
+                return 'F'
             raise TranslationError(f'{where}: type `{ty}` (outside the subset)')
         params = []
         for ty, n in c_params(f):
@@ -1010,8 +1173,10 @@ class Translator:
             params.append((n, kind_of(ty)))
         ret = kind_of(' '.join(t.text for t in f.ret_toks))
         pr = Parser(f.body_toks, where, tparams={}, enums=self.enums)
+        pr.float_types, pr.allow_float = set(ftypes), bool(ftypes)
         body = pr.block()
-        sub = Translator(where, dict(file=fname, func=base, ret_kind=ret, enum_types=self.spec.get('enum_types', ())), self.known)
+        sub = Translator(where, dict(file=fname, func=base, ret_kind=ret, enum_types=self.spec.get('enum_types', ()),
+                                     float=sorted(ftypes), fops=self.spec.get('fops')), self.known)
         sub.repo, sub.aux, sub.aux_info, sub.stack, sub.enums = self.repo, self.aux, self.aux_info, self.stack + [base], self.enums
 
         def fell(env2, ind2):
@@ -1122,7 +1287,11 @@ class Translator:
             return e[1]
         if e[0] == 'index' and self._path(e[1]) in (self.spec.get('list_fields') or {}):
             return self.spec['list_fields'][self._path(e[1])]
+        if e[0] == 'index' and e[1][0] == 'var' and env.get(e[1][1]) == 'arr':
+            return e[1][1]
         if self._path(e) in (self.spec.get('ignored_assign') or {}):
+            return None
+        if self.write_key(e) is not None:
             return None
         if e[0] == 'un' and e[1] == '*':
             d = self.spec.get('deref') or {}
@@ -1131,19 +1300,87 @@ class Translator:
                 return d[p]
         raise self.err(ln, f'assignment to `{self._path(e)}` (outside the subset: only local scalars are assigned)')
 
+    def state_call(self, e):
+        """`e` is a direct call of a translated function that takes (and returns) an array state -> its entry, else None"""
+        if isinstance(e, tuple) and e and e[0] == 'call':
+            f = self.known.get(e[1].split('::')[-1])
+            if f is not None and f.get('arr'):
+                return f
+        return None
+
+    def state_args(self, e, env):
+        f = self.state_call(e)
+        if f is None:
+            return []
+        return [a[1] for a, pk in zip(e[3], f['params']) if pk == 'arr' and a[0] == 'var']
+
+    def emit_state_call(self, e, env, ln, target):
+        """Lean text binding the results of the state-passing call `e`: the array argument is rebound to the returned state and
+        `target` (a variable name or None) to the returned value"""
+        f = self.state_call(e)
+        if len(e[3]) != len(f['params']):
+            raise self.err(ln, f'call of {e[1]} with {len(e[3])} arguments')
+        arrs, outs = [], []
+        for a, pk in zip(e[3], f['params']):
+            if pk == 'arr':
+                if a[0] != 'var' or env.get(a[1]) != 'arr':
+                    raise self.err(ln, f'call of {e[1]}: the array argument must be an array variable')
+                arrs.append(a[1])
+                outs.append(lname(a[1]))
+            else:
+                if self.state_call(a) is not None:
+                    raise self.err(ln, 'nested state-passing calls (outside the subset)')
+                outs.append(self.atom(self.coerce(self.expr(a, env, ln), pk, ln)))
+        if len(arrs) != 1:
+            raise self.err(ln, f'call of {e[1]}: exactly one array argument expected')
+        self.uses_fuel = True
+        self.calls.add(e[1].split('::')[-1])
+        call = f'{f["lean"]} fuel {" ".join(outs)}'
+        if f['ret'] == 'void':
+            if target is not None:
+                raise self.err(ln, f'{e[1]} returns nothing')
+            return f'let {lname(arrs[0])} : Array Int := {call}'
+        if target is None:
+            return f'let {lname(arrs[0])} : Array Int := ({call}).1'
+        return f'let ({lname(arrs[0])}, {lname(target)}) := {call}'
+
+    uses_fuel = False
+
+    def write_key(self, e):
+        """trace mode: the key of the lvalue `e` when it is a configured (recorded) element write"""
+        tr = self.spec.get('trace') or {}
+        if isinstance(e, tuple) and e and e[0] == 'mcall':
+            key = self._path(e[1]) + '.' + e[2] + '()'
+            if key in (tr.get('writes') or []):
+                return key
+        return None
+
     def assigned(self, stmts, env, acc=None, local=None):
-        """outer variables assigned by the statements, in first-assignment order"""
+        """outer variables assigned by the statements, in first-assignment order (trace mode: the trace `acc_` is one of them
+        when the statements append to it)"""
         acc = [] if acc is None else acc
         local = set() if local is None else local
         for s in stmts:
             k = s[0]
+            if self.spec.get('trace') and 'acc_' not in acc and self.has_events(s):
+                acc.append('acc_')
             if k == 'assign':
+                for w in self.state_args(s[3], {**env, **{x: 'int' for x in local}}):
+                    if w not in local and w not in acc:
+                        acc.append(w)
                 v = self.lvalue(s[2], {**env, **{x: 'int' for x in local}}, s[-1])
                 if v is not None and v not in local and v not in acc:
                     acc.append(v)
             elif k == 'decl':
-                for v, _ in s[2]:
+                for v, init in s[2]:
+                    for w in self.state_args(init, {**env, **{x: 'int' for x in local}}):
+                        if w not in local and w not in acc:
+                            acc.append(w)
                     local.add(v)
+            elif k == 'callstmt':
+                for w in self.state_args(s[1], {**env, **{x: 'int' for x in local}}):
+                    if w not in local and w not in acc:
+                        acc.append(w)
             elif k == 'structdecl':
                 local.add(s[2])
             elif k == 'block':
@@ -1198,13 +1435,116 @@ class Translator:
         return ('for', 'int', v, ('bin', '-', ('var', v), ('int', 1)), ('bin', '>=', ('var', v), bound),
                 [('preinc', '--', ('var', v))], ('block', tail, ln), ln, 'rebind')
 
+    def has_continue(self, s):
+        if s[0] == 'continue':
+            return True
+        if s[0] == 'block':
+            return any(self.has_continue(x) for x in s[1])
+        if s[0] == 'if':
+            return self.has_continue(s[2]) or (s[3] is not None and self.has_continue(s[3]))
+        return False                                    # an inner loop owns its own `continue`s
+
+    def subst_continue(self, s, lab):
+        if s[0] == 'continue':
+            return ('goto', lab, s[-1])
+        if s[0] == 'block':
+            return ('block', [self.subst_continue(x, lab) for x in s[1]], s[-1])
+        if s[0] == 'if':
+            return ('if', s[1], self.subst_continue(s[2], lab), None if s[3] is None else self.subst_continue(s[3], lab), s[-1])
+        return s
+
+    # -- `goto L` to a label at the END of an enclosing block (`… goto L; … L: ; }` — "leave the rest of this block")
+    def may_goto(self, x, lab):
+        if isinstance(x, tuple):
+            if len(x) == 3 and x[0] == 'goto' and x[1] == lab:
+                return True
+            return any(self.may_goto(y, lab) for y in x)
+        if isinstance(x, list):
+            return any(self.may_goto(y, lab) for y in x)
+        return False
+
+    def guard_list(self, ss, lab, flag):
+        """the statements `ss` with every `goto lab` replaced by `flag = true` and everything that would be executed after
+        such a jump (the rest of each enclosing statement list, the remaining iterations of each enclosing loop) put under
+        `if (!flag)`: the same effects as the jump to the end of the block"""
+        out = []
+        for i, s in enumerate(ss):
+            out.append(self.guard_stmt(s, lab, flag))
+            if self.may_goto(s, lab) and i + 1 < len(ss):
+                ln = ss[i + 1][7] if ss[i + 1][0] == 'for' else ss[i + 1][-1]
+                rest = self.guard_list(ss[i + 1:], lab, flag)
+                out.append(('if', ('un', '!', ('var', flag)), ('block', rest, ln), None, ln))
+                break
+        return out
+
+    def guard_stmt(self, s, lab, flag):
+        k = s[0]
+        ln = s[7] if k == 'for' else s[-1]
+        if not self.may_goto(s, lab):
+            return s
+        if k == 'goto':
+            return ('assign', '=', ('var', flag), ('boollit', True), ln)
+        if k == 'block':
+            return ('block', self.guard_list(s[1], lab, flag), ln)
+        if k == 'if':
+            return ('if', s[1], self.guard_stmt(s[2], lab, flag), None if s[3] is None else self.guard_stmt(s[3], lab, flag), ln)
+        if k == 'for':
+            body = self.guard_stmt(s[6], lab, flag)
+            body = ('block', [('if', ('un', '!', ('var', flag)), body, None, ln)], ln)
+            return s[:6] + (body,) + s[7:]
+        raise self.err(ln, f'`goto {lab}` inside a `{k}` statement (outside the subset)')
+
+    def label_region(self, ss, env):
+        """a statement list that ends in `L: ;` → the list with the jumps to `L` expressed through a flag"""
+        idx = next((i for i, s in enumerate(ss) if s[0] == 'label'), None)
+        if idx is None:
+            return ss
+        lab, ln = ss[idx][1], ss[idx][2]
+        if any(not (s[0] == 'block' and not s[1]) for s in ss[idx + 1:]):
+            raise self.err(ln, f'label `{lab}` is not at the end of its block (outside the subset)')
+        region = ss[:idx]
+        if any(s[0] == 'label' for s in region):
+            raise self.err(ln, 'two labels in one block (outside the subset)')
+        if not self.may_goto(region, lab):
+            return region
+        flag = 'brk_' + lab
+        if flag in env or self.mentions(region, flag):
+            raise self.err(ln, f'the name `{flag}` is in use')
+        return [('decl', 'bool', [(flag, ('boollit', False))], ln)] + self.guard_list(region, lab, flag)
+
     def stmts(self, ss, env, k, ind):
+        if ss and any(s[0] == 'label' for s in ss):
+            ss = self.label_region(ss, env)
         if not ss:
             return k(env, ind)
         s, rest = ss[0], ss[1:]
+        if s[0] == 'while' and self.spec.get('while_fuel'):
+            return self.while_fuel(s, env, lambda env2, ind2: self.stmts(rest, env2, k, ind2), ind)
         if s[0] == 'while':
             s = self.countdown(s, rest, env)
         return self.stmt(s, env, lambda env2, ind2: self.stmts(rest, env2, k, ind2), ind)
+
+    def while_fuel(self, s, env, k, ind):
+        """`while (c) BODY` -> `whileFuel fuel (fun st => decide c) (fun st => BODY; st) st` with the variables BODY assigns as
+        the state `st`: the loop as long as it ends within `fuel` iterations (then the state after `fuel` iterations)"""
+        _, cond, body, ln = s
+        pad = '  ' * ind
+        if _stmts_return([body]):
+            raise self.err(ln, '`return`/`break` inside a `while` body (outside the subset)')
+        if self.has_events(cond) or self.reads_in(cond):
+            raise self.err(ln, 'array read of a traced array in a loop condition (outside the subset)')
+        vs = self.assigned([body], env)
+        if not vs:
+            raise self.err(ln, '`while` loop whose body assigns nothing (outside the subset)')
+        tup = self.tuple_of(vs)
+        c = self.coerce(self.expr(cond, env, ln), 'prop', ln)
+        was = self.in_loop
+        self.in_loop = True
+        tb = self.stmts([body], dict(env), lambda env2, ind2: '  ' * ind2 + tup, ind + 2)
+        self.in_loop = was
+        self.uses_fuel = True
+        self.assumptions.append(f'line {ln}: the `while` loop ends within `fuel` iterations (otherwise: the state after `fuel` iterations)')
+        return (f'{pad}let {tup} := whileFuel fuel (fun {tup} => decide {c}) (fun {tup} =>\n{tb}) {tup}\n' + k(env, ind))
 
     def stmt(self, s, env, k, ind):
         """Lean term (text, each line indented by `ind`) for `s; <continuation k>`"""
@@ -1220,9 +1560,29 @@ class Translator:
         if kind == 'assert':
             self.asserts.append(f'line {ln}')
             return k(env, ind)
+        if kind == 'ignored':
+            self.ignored.append(f'line {ln} `{s[1]}`')
+            return k(env, ind)
+        if kind == 'continue':
+            raise self.err(ln, '`continue` outside the body of a translated `for` loop (outside the subset)')
+        if kind == 'push':
+            tr = self.spec.get('trace') or {}
+            key = self._path(s[1][1]) + '.push_back()'
+            if key not in (tr.get('pushes') or []):
+                raise self.err(ln, f'`{key}` is not a configured recorded container (outside the subset)')
+            if self.has_events(s[1][3]) or self.reads_in(s[1][3]):
+                raise self.err(ln, 'trace mode: a recorded value must read no array')
+            val = self.coerce(self.expr(s[1][3][0], env, ln), 'int', ln)
+            return f'{pad}let acc_ : List ({self.etype()}) := acc_ ++ [{val}]\n' + k(env, ind)
+        if kind == 'goto':
+            raise self.err(ln, f'`goto {s[1]}`: the label is not at the end of an enclosing block of the function (outside the subset)')
+        if kind == 'label':
+            raise self.err(ln, f'label `{s[1]}` in a position that is not the end of a block (outside the subset)')
         if kind == 'return':
             if self.in_loop:
                 raise self.err(ln, '`return` inside a loop body (outside the subset)')
+            if s[1] is None and self.spec.get('trace') and self.spec.get('void'):
+                return pad + 'acc_'
             if s[1] is None:
                 raise self.err(ln, '`return;` without a value')
             if self.spec.get('trace'):
@@ -1239,6 +1599,12 @@ class Translator:
                 pre = self.trace_pre([init], env, ln, pad)
                 if pre:
                     out.append(pre.rstrip('\n'))
+                if self.state_call(init) is not None:
+                    if s[1] != 'int':
+                        raise self.err(ln, 'result of a state-passing call stored in a non-integer')
+                    out.append(pad + self.emit_state_call(init, env, ln, v))
+                    env[v] = 'int'
+                    continue
                 if s[1] == 'elem':
                     if self.expr(init, env, ln)[1] not in ('elem', 'int'):
                         raise self.err(ln, 'initialiser of an element value')
@@ -1262,6 +1628,25 @@ class Translator:
             env = dict(env)
             env[s[2]] = 'list'
             return f'{pad}let {lname(s[2])} : List Int := {sl[1]}\n' + k(env, ind)
+        if kind == 'callstmt':
+            if self.state_call(s[1]) is None:
+                raise self.err(ln, f'call statement of `{s[1][1]}` (outside the subset)')
+            return pad + self.emit_state_call(s[1], env, ln, None) + '\n' + k(env, ind)
+        if kind == 'assign' and self.state_call(s[3]) is not None:
+            if s[1] != '=' or s[2][0] != 'var' or env.get(s[2][1]) != 'int':
+                raise self.err(ln, 'result of a state-passing call must be assigned to an integer variable')
+            return pad + self.emit_state_call(s[3], env, ln, s[2][1]) + '\n' + k(env, ind)
+        if kind == 'assign' and s[2][0] == 'index' and s[2][1][0] == 'var' and env.get(s[2][1][1]) == 'arr':
+            v = s[2][1][1]
+            ix = self.coerce(self.expr(s[2][2], env, ln), 'int', ln)
+            rhs = s[3] if s[1] == '=' else ('bin', s[1][0], s[2], s[3])
+            val = self.coerce(self.expr(rhs, env, ln), 'int', ln)
+            return f'{pad}let {lname(v)} : Array Int := {lname(v)}.setIfInBounds (Int.toNat ({ix})) {self.atom(val)}\n' + k(env, ind)
+        if kind == 'assign' and self.write_key(s[2]) is not None:
+            if s[1] != '=' or self.has_events(s[3]) or self.reads_in(s[3]) or self.has_events(list(s[2][3])) or self.reads_in(list(s[2][3])):
+                raise self.err(ln, 'trace mode: a recorded write must be a plain store of a value that reads no array')
+            ev = self.event(self.write_key(s[2]), self.spec['trace']['writes'], s[2][3], env, ln)
+            return f'{pad}let acc_ : List ({self.etype()}) := acc_ ++ {ev}\n' + k(env, ind)
         if kind == 'assign':
             if self.trace_pre([s[3]], env, ln, pad):
                 raise self.err(ln, 'trace mode: array read in an assignment (outside the subset)')
@@ -1289,6 +1674,42 @@ class Translator:
                 rhs = ('bin', s[1][0], ('var', v), rhs)
             val = self.coerce(self.expr(rhs, env, ln), kd, ln)
             return f'{pad}let {lname(v)} : {self.lean_type(kd)} := {val}\n' + k(env, ind)
+        if kind == 'if' and self.spec.get('trace') and self.reads_in(s[1]):
+            # a condition on element values (opaque): an oracle parameter decides it, or — `opaque_if='never'` — it is taken to
+            # be false and the statement must do nothing but leave a block (the trace is then the longest one: a superset)
+            tr = self.spec['trace']
+            pre = self.trace_pre([s[1]], env, ln, pad)
+            if tr.get('oracle') and tr['oracle'][1] == 'truth':
+                name, _, n = tr['oracle']
+                c, neg = s[1], False
+                while c[0] == 'un' and c[1] == '!':
+                    c, neg = c[2], not neg
+                if not self.read_key(c) or len(c[3]) != n or self.reads_in(list(c[3])):
+                    raise self.err(ln, 'trace mode: a condition on an element value must be `read` / `!read`')
+                ix = [self.atom(self.coerce(self.expr(a, env, ln), 'int', ln)) for a in c[3]]
+                test = f'({name} {" ".join(ix)} = true)'
+                if neg:
+                    test = f'¬ {test}'
+                return pre + self.stmt(('if', ('lean', test), s[2], s[3], ln), env, k, ind)
+            if tr.get('oracle'):
+                name, op, n = tr['oracle']
+                c = s[1]
+                if not (c[0] == 'bin' and c[1] in ('!=', '==') and self.read_key(c[2]) and self.read_key(c[3])):
+                    raise self.err(ln, 'trace mode: a condition on element values must be `read != read` / `read == read`')
+                ix = [self.atom(self.coerce(self.expr(a, env, ln), 'int', ln)) for r in (c[2], c[3]) for a in r[3]]
+                if len(ix) != n or self.reads_in([a for r in (c[2], c[3]) for a in r[3]]):
+                    raise self.err(ln, f'trace mode: the element comparison has {len(ix)} index arguments, the oracle takes {n}')
+                test = f'({name} {" ".join(ix)} = true)'
+                if (c[1] == '==') != (op == '=='):
+                    test = f'¬ {test}'
+                return pre + self.stmt(('if', ('lean', test), s[2], s[3], ln), env, k, ind)
+            if tr.get('opaque_if') == 'never':
+                body = s[2][1] if s[2][0] == 'block' else [s[2]]
+                if s[3] is not None or not body or any(b[0] != 'assign' or b[2][0] != 'var' or not b[2][1].startswith('brk_') for b in body):
+                    raise self.err(ln, 'trace mode: a statement under a condition on element values must only leave a block (`goto`)')
+                self.assumptions.append(f'line {ln}: the data-dependent exit is never taken (the trace is the longest one)')
+                return pre + k(env, ind)
+            raise self.err(ln, 'trace mode: array read in a condition (outside the subset)')
         if kind == 'if':
             if self.trace_pre([s[1]], env, ln, pad):
                 raise self.err(ln, 'trace mode: array read in a condition (outside the subset)')
@@ -1302,7 +1723,11 @@ class Translator:
                 return f'{pad}if {c} then\n{ta}\n{pad}else\n{tb}'
             vs = self.assigned(a + b, env)
             if not vs:
-                return k(env, ind)          # no effect in the subset (asserts only)
+                # no effect in the subset (asserts only) — the branches are still translated, so that a construct outside
+                # the subset in them is reported
+                self.stmts(a, dict(env), lambda env2, ind2: '()', ind + 2)
+                self.stmts(b, dict(env), lambda env2, ind2: '()', ind + 2)
+                return k(env, ind)
             tup = self.tuple_of(vs)
             fin = lambda env2, ind2: '  ' * ind2 + tup
             ta = self.stmts(a, dict(env), fin, ind + 2)
@@ -1375,8 +1800,26 @@ class Translator:
                 raise self.err(ln, 'loop step other than ++i / --i (outside the subset)')
         if up is None:
             raise self.err(ln, 'loop does not step its index')
-        if not (cond[0] == 'bin' and cond[2] == ('var', v)):
-            raise self.err(ln, 'loop condition is not `i <op> bound`')
+        # `i <op> bound && G && …`: the simple bound gives the range; the other conjuncts are tested before every iteration
+        # and the first failure ends the loop (an `alive` flag in the fold state)
+        conj = []
+
+        def flat(c):
+            if c[0] == 'bin' and c[1] == '&&':
+                flat(c[2])
+                flat(c[3])
+            else:
+                conj.append(c)
+        flat(cond)
+        okops = ('!=', '<', '<=') if up else ('>=', '>')
+        bi = next((i for i, c in enumerate(conj) if c[0] == 'bin' and c[2] == ('var', v) and c[1] in okops
+                   and not self.mentions(c[3], v)), None)
+        if bi is None:
+            raise self.err(ln, 'loop condition is not `i <op> bound` (possibly `&&` further tests)')
+        guards = conj[:bi] + conj[bi + 1:]
+        cond = conj[bi]
+        if guards and (self.has_events(guards) or self.reads_in(guards)):
+            raise self.err(ln, 'array read in a loop condition (outside the subset)')
         op = cond[1]
         lo = self.coerce(self.expr(init, env, ln), 'int', ln)
         bound = self.coerce(self.expr(cond[3], env, ln), 'int', ln)
@@ -1393,6 +1836,10 @@ class Translator:
         else:
             raise self.err(ln, f'loop condition `{op}` with step {"++" if up else "--"} (outside the subset)')
         ix = (f'{lo} + (k_ : Int)' if lo != '0' else '(k_ : Int)') if up else f'{lo} - (k_ : Int)'
+        if self.has_continue(body):
+            # `continue` = jump to the end of the body of the innermost enclosing loop
+            lab = 'continue_' + v
+            body = ('block', [self.subst_continue(body, lab), ('label', lab, ln)], ln)
         if _stmts_return([body]):
             raise self.err(ln, '`return`/`break` inside a loop body (outside the subset)')
         vs = self.assigned([body], env)
@@ -1404,13 +1851,28 @@ class Translator:
         tup = self.tuple_of(vs)
         env_in = dict(env)
         env_in[v] = 'int'
+        for w in self.free_in_bound(cond[3]) | self.free_in_bound(init):
+            if w in vs:
+                raise self.err(ln, f'loop bound `{w}` is assigned in the body (outside the subset)')
+        if guards:
+            go = 'go_' + v
+            if go in env or self.mentions(body, go):
+                raise self.err(ln, f'the name `{go}` is in use')
+            g = ' ∧ '.join(self.coerce(self.expr(c, env_in, ln), 'prop', ln) for c in guards)
+            st_in = '(' + ', '.join([go] + [lname(x) for x in vs]) + ')'
+            st = lambda b: '(' + ', '.join([b] + [lname(x) for x in vs]) + ')'
+            was = self.in_loop
+            self.in_loop = True
+            tb = self.stmts([body], env_in, lambda env2, ind2: '  ' * ind2 + st('true'), ind + 3)
+            self.in_loop = was
+            return (f'{pad}let {st_in} := (List.range (Int.toNat ({count}))).foldl (fun {st_in} (k_ : Nat) =>\n'
+                    f'{pad}    let {lname(v)} : Int := {ix}\n'
+                    f'{pad}    if {go} = true ∧ {g} then\n{tb}\n'
+                    f'{pad}    else\n{pad}      {st("false")}) {st("true")}\n' + k(env, ind))
         was = self.in_loop
         self.in_loop = True
         tb = self.stmts([body], env_in, lambda env2, ind2: '  ' * ind2 + tup, ind + 2)
         self.in_loop = was
-        for w in self.free_in_bound(cond[3]) | self.free_in_bound(init):
-            if w in vs:
-                raise self.err(ln, f'loop bound `{w}` is assigned in the body (outside the subset)')
         return (f'{pad}let {tup} := (List.range (Int.toNat ({count}))).foldl (fun {tup} (k_ : Nat) =>\n'
                 f'{pad}    let {lname(v)} : Int := {ix}\n{tb}) {tup}\n' + k(env, ind))
 
@@ -1430,7 +1892,7 @@ class Translator:
         return out
 
     def lean_type(self, kd):
-        return {'int': 'Int', 'T': 'Int', 'bool': 'Bool', 'ptr': 'Int', 'addr': 'Int', 'u32': 'Nat', 'list': 'List Int'}[kd]
+        return {'int': 'Int', 'T': 'Int', 'bool': 'Bool', 'ptr': 'Int', 'addr': 'Int', 'u32': 'Nat', 'list': 'List Int', 'F': 'α', 'arr': 'Array Int'}[kd]
 
     def addr_of(self, e, env, ln):
         """the element offset designated by the lvalue `e` (`p[i]` or `*p` with `p` a pointer into the data)"""
@@ -1458,6 +1920,8 @@ class Translator:
                 return f'(if {c} then {self.ret(e[2], env, ln)} else {self.ret(e[3], env, ln)})'
             val = self.coerce(self.expr(e, env, ln), rk, ln)
             return f'some {self.atom(val)}'
+        if self.spec.get('arr_state'):
+            return f'({lname(self.spec["arr_state"])}, {self.coerce(self.expr(e, env, ln), rk, ln)})'
         return self.coerce(self.expr(e, env, ln), rk, ln)
 
 
@@ -1629,6 +2093,106 @@ TARGETS = [
 ]
 
 
+# `_convolve.cpp: find2d` — the whole kernel (four nested loops, compound loop conditions, `goto next_pos`), twice:
+#   find2d_marks     the positions `out.at(y, x) = true` is executed for, the element comparison being the oracle `ne_`
+#   find2d_accesses  every index pair the kernel can touch (reads of `array` = 0, `target` = 1, writes of `out` = 2), the
+#                    data-dependent exit never taken
+_FIND2D = dict(file='mahotas/_convolve.cpp', func='find2d', pick='generic', tparams=['T'], params=[], raw_params=True,
+               c_param_names=['array', 'target', 'out'], ret_kind='int', void=True,
+               extra_params=[('adims', 'list'), ('tdims', 'list')],
+               skip_prefixes=[['gil_release'], ['bool', '*'], ['std', '::', 'fill']],
+               accessors={'array.dim()': ('adims', 'int'), 'target.dim()': ('tdims', 'int')})
+TARGETS += [
+    # floating helpers, polymorphic in the scalar type (the operator classes the models are written over)
+    dict(key='spline_coeff', file='mahotas/_interpolate.cpp', func='spline_coefficients', pick='generic', tparams=['FT'],
+         lean='spline_coeff', params=[], raw_params=True, c_param_names=['x', 'order', 'result'],
+         extra_params=[('order', 'int'), ('y', 'F'), ('res_', 'F')], env_kinds={'order': 'int', 'y': 'F', 'res_': 'F'},
+         ret_kind='F', select=dict(kind='switch'), result='res_', rename_seq=[(('result', '[', 'hh', ']'), 'res_')],
+         float=['FT', 'double'], driver_call='spline_coeff (α := Float) (x 0) (fl_ (x 1)) (fl_ (x 2))',
+         doc='the `switch (order)` of `spline_coefficients` (one B-spline weight as a function of the distance `y` to the knot), '
+             'polymorphic in the scalar type `α`: every C++ operation is one operation of `α` in the same order (the rounding '
+             'sequence); a decimal constant is the quotient of two small naturals; `result[hh]` is the variable `res_` (its old '
+             'value is returned for an `order` without a case)'),
+    dict(key='dt_intersect', file='mahotas/_distance.cpp', func='dist_transform', pick='generic', tparams=['BaseType'], lean='dt_intersect',
+         params=[], raw_params=True, c_param_names=['Df', 'f', 'n', 'stride', 'z', 'v', 'orig', 'ot', 'ostride'],
+         extra_params=[('fq', 'F'), ('q', 'int'), ('fv', 'F'), ('vk', 'int'), ('s', 'F')],
+         env_kinds={'fq': 'F', 'q': 'int', 'fv': 'F', 'vk': 'int', 's': 'F'},
+         ret_kind='F', select=dict(kind='assign-to', var='s'), result='s', float=['BaseType', 'double'],
+         rename_seq=[(('v', '[', 'k', ']'), 'vk'), (('f', '[', 'q', '*', 'stride', ']'), 'fq'), (('f', '[', 'vk', '*', 'stride', ']'), 'fv')],
+         driver_call='dt_intersect (α := Float) (fl_ (x 0)) (x 1) (fl_ (x 2)) (x 3) (fl_ 0)',
+         doc='the assignment `s = ((f[q*stride] + square(BaseType(q))) - (f[v[k]*stride] + square(BaseType(v[k])))) / 2. / (q - v[k]);` of '
+             '`dist_transform` (abscissa where the parabolas rooted at `v[k]` and `q` meet), polymorphic in the scalar type; `fq`, `fv` stand '
+             'for the two samples `f[q*stride]`, `f[v[k]*stride]`, `vk` for `v[k]`; the last parameter is the old value of `s` (unused)'),
+    # `_labeled.cpp`: the union-find on the label buffer. The array `data` is a state (`Array Int`: a read outside the buffer gives
+    # -1, a write outside is dropped — the conventions of `Model/C03.lean`; both are undefined behaviour in C++ and never happen
+    # in `label`), every function returns the new state (and its value); `while` loops take `fuel`
+    dict(key='uf_find', file='mahotas/_labeled.cpp', func='find', pick='generic', tparams=['It'], lean='uf_find', raw_params=True,
+         c_param_names=['data', 'i'], params=[('data', 'arr'), ('i', 'int')], ret_kind='int', arr_state='data', arr_default='-1',
+         while_fuel=True,
+         driver_call='(let v := uf_find (x 0).toNat (a.ints "l0").toArray (x 1); s!"{v.2};{showInts v.1.toList}")',
+         doc='`find(data, i)`: the root search loop and the path compression loop; value = (the buffer afterwards, the returned root)'),
+    dict(key='uf_compress', file='mahotas/_labeled.cpp', func='compress', pick='generic', tparams=['It'], lean='uf_compress', raw_params=True,
+         c_param_names=['data', 'i'], params=[('data', 'arr'), ('i', 'int')], ret_kind='int', void=True, arr_state='data', arr_default='-1',
+         while_fuel=True, driver_call='showInts (uf_compress (x 0).toNat (a.ints "l0").toArray (x 1)).toList',
+         doc='`compress(data, i)`: value = the buffer afterwards'),
+    dict(key='uf_join', file='mahotas/_labeled.cpp', func='join', pick='generic', tparams=['It'], lean='uf_join', raw_params=True,
+         c_param_names=['data', 'i', 'j'], params=[('data', 'arr'), ('i', 'int'), ('j', 'int')], ret_kind='int', void=True,
+         arr_state='data', arr_default='-1', while_fuel=True,
+         driver_call='showInts (uf_join (x 0).toNat (a.ints "l0").toArray (x 1) (x 2)).toList',
+         doc='`join(data, i, j)`: value = the buffer afterwards'),
+    dict(key='fast_positions', file='mahotas/_morph.cpp', func='fast_binary_dilate_erode_2d', pick='plain', lean='fast_positions',
+         params=[], raw_params=True, c_param_names=['res', 'array', 'Bc', 'is_erosion'],
+         extra_params=[('Nx', 'int'), ('bdims', 'list')], env_kinds={'Nx': 'int'}, ret_kind='int',
+         select=dict(kind='from-decl', var='By', count=6), result='acc_',
+         skip_prefixes=[['std', '::', 'vector']], accessors={'Bc.dim()': ('bdims', 'int')},
+         trace=dict(reads=[], silent_reads=['Bc.at()'], pushes=['positions.push_back()'], etype='Int', oracle=('bc_', 'truth', 2)),
+         driver_call='(let l0 := a.ints "l0"; let l1 := (a.ints "l1").toArray; let b1 := l0.getD 1 0; '
+                     'fast_positions (fun i j => decide (l1.getD (Int.toNat (i * b1 + j)) 0 ≠ 0)) (x 0) l0)',
+         doc='TRACE translation of the statements of `fast_binary_dilate_erode_2d` that build the offset list (`By`, `Bx`, `Cy`, `Cx` and the '
+             'two nested loops): the value is the content of `positions` (`dy`, `dx`, `dy`, `dx`, …) in push order; `bc_ y x` stands for '
+             '`Bc.at(y, x)`, `Bc.dim(d)` reads the list `bdims`, `Nx` is `array.dim(1)`; `continue` is a jump to the end of the loop body'),
+    # the per-row part of the fast path: the row clamp of `dy` and the length `n` of the main loop
+    dict(key='fast_row_dy', file='mahotas/_morph.cpp', func='fast_binary_dilate_erode_2d', pick='plain', lean='fast_row_dy',
+         params=[], raw_params=True, c_param_names=['res', 'array', 'Bc', 'is_erosion'],
+         extra_params=[('y', 'int'), ('Ny', 'int'), ('pdy', 'int'), ('pdx', 'int')],
+         env_kinds={'y': 'int', 'Ny': 'int', 'pdy': 'int', 'pdx': 'int'}, ret_kind='int',
+         select=dict(kind='from-decl', var='dy', of=2, nth=1, count=5), result='dy',
+         rename_seq=[(('positions', '[', '2', '*', 'j', ']'), 'pdy'), (('positions', '[', '2', '*', 'j', '+', '1', ']'), 'pdx')],
+         doc='the statements `dy = positions[2*j]; dx = positions[2*j + 1]; if ((y + dy) < 0) dy = -y; if ((y + dy) >= Ny) dy = -y+(Ny-1);` '
+             'of the row loop of `fast_binary_dilate_erode_2d`: the row offset after the clamp (`pdy`, `pdx` stand for the two entries of `positions`)'),
+    dict(key='fast_row_n', file='mahotas/_morph.cpp', func='fast_binary_dilate_erode_2d', pick='plain', lean='fast_row_n',
+         params=[], raw_params=True, c_param_names=['res', 'array', 'Bc', 'is_erosion'],
+         extra_params=[('y', 'int'), ('Ny', 'int'), ('Nx', 'int'), ('pdy', 'int'), ('pdx', 'int')],
+         env_kinds={'y': 'int', 'Ny': 'int', 'Nx': 'int', 'pdy': 'int', 'pdx': 'int'}, ret_kind='int',
+         select=dict(kind='from-decl', var='dy', of=2, nth=1, count=6), result='n',
+         rename_seq=[(('positions', '[', '2', '*', 'j', ']'), 'pdy'), (('positions', '[', '2', '*', 'j', '+', '1', ']'), 'pdx')],
+         doc='the same statements and `n = Nx - t_abs(dx);`: the number of iterations of the main loop of a row'),
+    dict(key='rank_currank', file='mahotas/_convolve.cpp', func='rank_filter', pick='generic', tparams=['T'], lean='rank_currank',
+         params=[], raw_params=True, c_param_names=['res', 'array', 'Bc', 'rank', 'mode', 'cval'],
+         extra_params=[('n', 'int'), ('N2', 'int'), ('rank', 'int')], env_kinds={'n': 'int', 'N2': 'int', 'rank': 'int'},
+         ret_kind='int', select=dict(kind='from-decl', var='currank', count=2), result='currank', float=['double'],
+         fbinders='{α : Type} (ofNat : Nat → α) (div : α → α → α) (trunc : α → Nat)',
+         fops=dict(ofint='(ofNat (Int.toNat {e}))', natlit='(ofNat {n})', div='(div {a} {b})', trunc='((trunc {a} : Nat) : Int)'),
+         driver_call='rank_currank Float.ofNat (· / ·) (fun v => v.toUInt64.toNat) (x 0) (x 1) (x 2)',
+         doc='the statements `npy_intp currank = rank; if (n != N2) { currank = npy_intp(n * rank/double(N2)); }` of `rank_filter`, '
+             'polymorphic in the floating type: `ofNat` converts a (non-negative) integer, `div` divides, `trunc` is the conversion '
+             'back to `npy_intp`'),
+    dict(_FIND2D, key='find2d_marks', lean='find2d_marks',
+         trace=dict(reads=[], silent_reads=['array.at()', 'target.at()'], writes=['out.at()'], oracle=('ne_', '!=', 4)),
+         driver_call='(let l0 := a.ints "l0"; let l1 := a.ints "l1"; let l2 := (a.ints "l2").toArray; let l3 := (a.ints "l3").toArray; '
+                     'let n1 := l0.getD 1 0; let t1 := l1.getD 1 0; '
+                     'find2d_marks (fun i j k l => decide (l2.getD (Int.toNat (i * n1 + j)) 0 ≠ l3.getD (Int.toNat (k * t1 + l)) 0)) l0 l1)',
+         doc='TRACE translation of the whole kernel: the value is the list of the `(y, x)` for which `out.at(y, x) = true` is executed, '
+             'in loop order; `ne_ i j k l` stands for `array.at(i, j) != target.at(k, l)`; `array.dim(d)` / `target.dim(d)` read the '
+             'lists `adims` / `tdims`; `goto next_pos` (label at the end of the loop body) is a flag that disables the rest of the body'),
+    dict(_FIND2D, key='find2d_accesses', lean='find2d_accesses',
+         trace=dict(reads={'array.at()': 0, 'target.at()': 1}, writes={'out.at()': 2}, etype='Int × Int × Int', opaque_if='never'),
+         doc='TRACE translation of the whole kernel: the list of `(k, i, j)` = index pair `(i, j)` used on `array` (k = 0, read), `target` '
+             '(k = 1, read), `out` (k = 2, write), in source order, when no comparison ever leaves the inner loops (every actual run '
+             'touches a subset)'),
+]
+
+
 def pick_function(repo: Path, tg) -> CFunc:
     p = repo / tg['file']
     if not p.exists():
@@ -1670,6 +2234,9 @@ def c_params(f: CFunc):
         out.append(cur)
     res = []
     for p in out:
+        eq = next((k for k, t in enumerate(p) if t.kind == 'op' and t.text == '='), None)
+        if eq is not None:                                   # default argument
+            p = p[:eq]
         if p[-1].kind != 'id':
             res.append((' '.join(t.text for t in p), None))          # unnamed parameter
         else:
@@ -1734,11 +2301,30 @@ def translate_target(repo: Path, tg, known) -> dict:
     pr = Parser(body_toks, where, tparams={**{n: 'T' for n in tparams}, **{n: 'int' for n in INT}}, enums=enums)
     pr.ptr_elems = set(tg.get('ptr_elems') or [])
     pr.struct_types = set(tg.get('struct_types') or [])
+    pr.skip_prefixes = [tuple(x) for x in (tg.get('skip_prefixes') or [])]
+    if tg.get('float'):
+        pr.float_types = set(tg['float'])
+        pr.allow_float = True
+    for seq, name in (tg.get('rename_seq') or []):      # e.g. `result [ hh ]` -> one scalar variable
+        nt, k = [], 0
+        while k < len(pr.toks):
+            if [t.text for t in pr.toks[k:k + len(seq)]] == list(seq):
+                t0 = pr.toks[k]
+                nt.append(Tok('id', name, t0.line, t0.pos, t0.end))
+                k += len(seq)
+            else:
+                if pr.toks[k].kind == 'id' and pr.toks[k].text == name:
+                    raise TranslationError(f'{where}: the name `{name}` is in use')
+                nt.append(pr.toks[k])
+                k += 1
+        pr.toks = nt
     if tg.get('trace'):
         pr.allow_float = True
         pr.tparams.update({n: 'elem' for n in list(tparams) + ['double', 'float']})
     if tg.get('select') == 'first-for-body':
         body = select_first_for(f, pr, where)
+    elif isinstance(tg.get('select'), dict):
+        body = select_stmts(pr, where, tg['select'])
     else:
         body = pr.block()
         if pr.i != len(pr.toks):
@@ -1753,23 +2339,39 @@ def translate_target(repo: Path, tg, known) -> dict:
             env[n] = kd
     for n in tg.get('env_params', []):
         env[n] = 'int'
-    if tg.get('select') == 'first-for-body':
+    env.update(tg.get('env_kinds') or {})
+    if tg.get('select'):
         res = tg['result']
         term = tr.stmts(body, env, lambda env2, ind2: '  ' * ind2 + lname(res), 1)
     else:
         def fell(env2, ind2):
+            if tg.get('trace') and tg.get('void'):
+                return '  ' * ind2 + 'acc_'
+            if tg.get('arr_state') and tg.get('void'):
+                return '  ' * ind2 + lname(tg['arr_state'])
             raise TranslationError(f'{where}: control reaches the end of the function without `return`')
         term = tr.stmts(body, env, fell, 1)
     if tg.get('trace'):
-        term = '  let acc_ : List (Int × Int) := []\n' + term
+        term = f'  let acc_ : List ({tr.etype()}) := []\n' + term
     binders = []
+    if tg.get('float'):
+        binders.append(tg.get('fbinders') or '{α : Type} [Add α] [Sub α] [Mul α] [Div α] [Neg α] [NatCast α] [IntCast α] [LT α] [DecidableLT α]')
     if tr.uses_dt:
         binders.append('(dt : DT)')
+    if tr.uses_fuel:
+        binders.append('(fuel : Nat)')
+    if tg.get('trace') and tg['trace'].get('oracle'):
+        oname, _, on = tg['trace']['oracle']
+        binders.append(f'({oname} : {"Int → " * on}Bool)')
     for n, kd in cfg:
         binders.append(f'({lname(n)} : {"List Int" if kd == "list" else tr.lean_type(kd)})')
     for n, kd in tg.get('extra_params', []):
         binders.append(f'({lname(n)} : {"List Int" if kd == "list" else tr.lean_type(kd)})')
-    rty = 'Option Int' if tg.get('flag_const') else ('List (Int × Int)' if tg.get('trace') else tr.lean_type(tg['ret_kind']))
+    rty = 'Option Int' if tg.get('flag_const') else (f'List ({tr.etype()})' if tg.get('trace') else tr.lean_type(tg['ret_kind']))
+    if tg.get('arr_state'):
+        rty = 'Array Int' if tg.get('void') else f'Array Int × {rty}'
+        if not tr.uses_fuel:
+            raise TranslationError(f'{where}: an array-state function without a loop or call that consumes fuel is not expected here')
     doc = [f'/-- `{tg["func"]}`{" (" + tg["pick"] + ")" if tg["pick"] != "plain" else ""} — {tg["file"]} lines {f.line0}–{f.line1}, '
            f'sha256 of the token text {f.hash}.']
     if tg.get('doc'):
@@ -1777,7 +2379,9 @@ def translate_target(repo: Path, tg, known) -> dict:
     if tr.asserts:
         doc.append('    ignored `assert`s: ' + ', '.join(tr.asserts) + '.')
     if tr.assumptions:
-        doc.append('    assumed: ' + '; '.join(tr.assumptions) + '.')
+        doc.append('    assumed: ' + '; '.join(dict.fromkeys(tr.assumptions)) + '.')
+    if tr.ignored:
+        doc.append('    statements without effect on this value (configured, not translated): ' + '; '.join(tr.ignored) + '.')
     doc[-1] += ' -/'
     if tr.aux:
         clash = sorted({a for a, _ in tr.aux} & ({lname(n) for n, _ in cfg} | {lname(n) for n, _ in tg.get('extra_params', [])}))
@@ -1788,6 +2392,50 @@ def translate_target(repo: Path, tg, known) -> dict:
     info = dict(lean=tg['lean'], params=[kd for _, kd in cfg + list(tg.get('extra_params', []))], ret=tg['ret_kind'],
                 dt=('T-as-arg' if tg.get('template_call') else tr.uses_dt))
     return dict(lines=lines, info=info, func=f, calls=sorted(tr.calls))
+
+
+def select_stmts(pr: Parser, where, sel):
+    """statement selection inside a long function that is outside the subset as a whole:
+       kind='switch'     the first `switch` statement of the function
+       kind='from-decl'  the declaration `<type> var = …;` of the local `var` and the `count - 1` statements after it"""
+    toks = pr.toks
+    if sel['kind'] == 'switch':
+        for i, t in enumerate(toks):
+            if t.kind == 'id' and t.text == 'switch':
+                pr.i = i
+                out = [pr.stmt()]
+                pr.sel_span = (toks[i].pos, toks[pr.i - 1].end)
+                return out
+        raise TranslationError(f'{where}: no `switch` statement found')
+    if sel['kind'] == 'from-decl':
+        hits = [i for i, t in enumerate(toks) if t.kind == 'id' and t.text == sel['var'] and i + 1 < len(toks) and toks[i + 1].text == '='
+                and i > 0 and toks[i - 1].kind == 'id']
+        starts = []
+        for i in hits:
+            a = i
+            while a > 0 and not (toks[a - 1].kind == 'op' and toks[a - 1].text in (';', '{', '}')):
+                a -= 1
+            pr.i = a
+            if pr.try_type() is not None and pr.i == i:
+                starts.append(a)
+        want = sel.get('of', 1)                 # `of` = how many declarations of that name the function has, `nth` = which one
+        if len(starts) != want:
+            raise TranslationError(f'{where}: {len(starts)} declarations of the local `{sel["var"]}` found, expected exactly {want}')
+        st = starts[sel.get('nth', 0)]
+        pr.i = st
+        out = [pr.stmt() for _ in range(sel['count'])]
+        pr.sel_span = (toks[st].pos, toks[pr.i - 1].end)
+        return out
+    if sel['kind'] == 'assign-to':
+        starts = [i for i, t in enumerate(toks) if t.kind == 'id' and t.text == sel['var'] and i + 1 < len(toks) and toks[i + 1].text == '='
+                  and i > 0 and toks[i - 1].kind == 'op' and toks[i - 1].text in (';', '{', '}')]
+        if len(starts) != 1:
+            raise TranslationError(f'{where}: {len(starts)} assignments `{sel["var"]} = …;` found, expected exactly one')
+        pr.i = starts[0]
+        out = [pr.stmt()]
+        pr.sel_span = (toks[starts[0]].pos, toks[pr.i - 1].end)
+        return out
+    raise TranslationError(f'{where}: unknown selection {sel}')
 
 
 def select_first_for(f: CFunc, pr: Parser, where):
@@ -1822,6 +2470,12 @@ import Mahotas.Model.DType
 namespace Mahotas.Generated.C
 open Mahotas
 set_option linter.unusedVariables false
+
+/-- `while (c) s = f s` as long as it ends within `fuel` iterations (then the state after `fuel` iterations) -/
+def whileFuel {σ : Type} (fuel : Nat) (c : σ → Bool) (f : σ → σ) (s : σ) : σ :=
+  match fuel with
+  | 0 => s
+  | n + 1 => if c s then whileFuel n c f (f s) else s
 '''
 
 
@@ -1906,7 +2560,24 @@ def extracted_sources(repo: Path) -> dict:
             if tg.get('enum'):
                 enum = (tg['enum'][1], parse_enum(tg['enum'][0], (repo / tg['enum'][0]).read_text(), tg['enum'][1]))
             deps = dependencies(tg['file'], f.src, f) if tg.get('with_deps') else []
-            out[tg['key']] = dict(text=f.text, deps=deps, hash=f.hash, enum=enum, func=tg['func'], lean=tg['lean'])
+            ent = dict(text=f.text, deps=deps, hash=f.hash, enum=enum, func=tg['func'], lean=tg['lean'])
+            if isinstance(tg.get('select'), dict):          # the selected statements, as they stand in the source
+                pr = Parser(f.body_toks, tg['key'], tparams={n: 'T' for n in tg.get('tparams', [])})
+                pr.float_types, pr.allow_float = set(tg.get('float') or []), bool(tg.get('float'))
+                pr.skip_prefixes = [tuple(x) for x in (tg.get('skip_prefixes') or [])]
+                select_stmts(pr, tg['key'], tg['select'])
+                ent['slice'] = f.src[pr.sel_span[0]:pr.sel_span[1]]
+                helpers = []                                # functions of the same file the selected statements call
+                stoks = tokenize(ent['slice'], tg['file'])
+                for k, t in enumerate(stoks):
+                    if t.kind == 'id' and t.text != f.name and t.text not in [h.name for h in helpers] \
+                            and k + 1 < len(stoks) and stoks[k + 1].text == '(' and (k == 0 or stoks[k - 1].text not in ('.', '->', '::')) \
+                            and t.text not in ('if', 'for', 'while', 'switch', 'return'):
+                        hs = find_functions(tg['file'], f.src, t.text)
+                        if len(hs) == 1:
+                            helpers.append(hs[0])
+                ent['helpers'] = [h.text for h in helpers]
+            out[tg['key']] = ent                            # (a target whose statements cannot be selected is absent)
         except TranslationError:
             continue
     return out
@@ -1915,14 +2586,18 @@ def extracted_sources(repo: Path) -> dict:
 def handle_block(entries) -> list[str]:
     """the driver entry point `cs fn=<name> [dt=<dtype>] a=<scalars> l0=<list> l1=<list>`: evaluates a generated definition
     (used by harness/foundation/cscalar.py to compare it with the compiled C++ text)"""
-    s = ['/-- driver op `cs`: `fn` = generated definition, `a` = its scalar arguments in order, `l0, l1, …` = its list',
+    s = ['local instance : NatCast Float := ⟨Float.ofNat⟩', 'local instance : IntCast Float := ⟨Float.ofInt⟩',
+         'private def fl_ (v : Int) : Float := Float.ofBits v.toNat.toUInt64', '',
+         '/-- driver op `cs`: `fn` = generated definition, `a` = its scalar arguments in order, `l0, l1, …` = its list',
          '    arguments in order, `dt` = dtype name; answers `r=<value>` (`r=u` for `none`) -/',
          'def handle (a : Args) : String :=',
          '  let xs := a.ints "a"',
          '  let x (i : Nat) : Int := xs.getD i 0',
          '  let dt := DT.ofName (a.str "dt")',
          '  match a.str "fn" with']
-    for lean, kinds, uses_dt, opt in entries:
+    for lean, kinds, uses_dt, opt, *over in entries:
+        if over and over[0] == '-':
+            continue
         args, si, li = [], 0, 0
         for kd in kinds:
             if kd == 'list':
@@ -1938,12 +2613,18 @@ def handle_block(entries) -> list[str]:
                 args.append(f'(x {si})')
                 si += 1
         call = f'{lean} {"dt " if uses_dt else ""}{" ".join(args)}'
+        if over and over[0]:
+            call = over[0]
         if opt == 'opt':
             s.append(f'  | "{lean}" => match {call} with | some v => s!"r={{v}}" | none => "r=u"')
         elif opt == 'list':
             s.append(f'  | "{lean}" => "r=" ++ showInts ({call})')
         elif opt == 'trace':
             s.append(f'  | "{lean}" => "r=" ++ ";".intercalate (({call}).map fun p => s!"{{p.1}},{{p.2}}")')
+        elif opt == 'fbits':
+            s.append(f'  | "{lean}" => s!"r={{({call}).toBits.toNat}}"')
+        elif opt == 'trace3':
+            s.append(f'  | "{lean}" => "r=" ++ ";".intercalate (({call}).map fun p => s!"{{p.1}},{{p.2.1}},{{p.2.2}}")')
         else:
             s.append(f'  | "{lean}" => s!"r={{{call}}}"')
     s += ['  | f => s!"error=unknown-fn-{f}"', '']
@@ -1989,10 +2670,12 @@ def generate(repo: Path, outdir: Path) -> dict:
         uses_dt = '(dt : DT)' in '\n'.join(lines)
         allp = list(tg['params']) + list(tg.get('extra_params', []))
         known[tg['func'] if tg['pick'] != 'full' else tg['key']] = dict(
-            lean=tg['lean'], params=[kd for _, kd in allp], ret=tg['ret_kind'],
-            dt=('T-as-arg' if tg.get('template_call') else uses_dt), trace=bool(tg.get('trace')))
+            lean=tg['lean'], params=[kd for _, kd in allp], ret=('void' if tg.get('void') else tg['ret_kind']),
+            dt=('T-as-arg' if tg.get('template_call') else uses_dt), trace=bool(tg.get('trace')), arr=bool(tg.get('arr_state')))
         entries.append((tg['lean'], [kd for _, kd in allp], uses_dt,
-                        'opt' if tg.get('flag_const') else ('trace' if tg.get('trace') else ('list' if tg['ret_kind'] == 'list' else ''))))
+                        'opt' if tg.get('flag_const') else ({'Int': 'list', 'Int × Int × Int': 'trace3'}.get(tg['trace'].get('etype'), 'trace') if tg.get('trace')
+                                                            else ('list' if tg['ret_kind'] == 'list' else ('fbits' if tg['ret_kind'] == 'F' else ''))),
+                        tg.get('driver_call')))
         names[blk] = ['Mahotas.Generated.C.' + n for n in defined_names('\n'.join(lines))]
         blocks.append([blk, list(lines)])
 
